@@ -190,6 +190,7 @@ type Engine struct {
 	RaceQueries int
 	raceClass   func(w, o *accessEv) string
 	vfs         map[string][]value // virtual files of the current path (verifVFSPut)
+	vfsLinks    map[string]bool    // virtual files that are symbolic links to a file (verifVFSLink)
 	lastTrace   string
 	tracesShown int
 	Asserts     int
@@ -781,6 +782,7 @@ func (e *Engine) runPath(entry *ssa.Function) {
 	e.resetThreads()
 	e.raceReset()
 	e.vfs = nil
+	e.vfsLinks = nil
 	e.schedForks = 0
 	e.schedOff = false
 	e.lockBusy = false
